@@ -143,6 +143,12 @@ func RunExportImport(c *core.Ctx) {
 		for k := 0; k < nf; k++ {
 			d[gen.Pick(r, []string{"a", "b", "c", "x", "obj", "arr", "é"})] = jsonValue(r, 3)
 		}
+		if r.P(30) {
+			// a top-level field NAME holding a dot (only NewDocumentOf can make one; Set would read it as a path) is a name
+			// like any other to export and import: it must not come back as a nested object
+			d[gen.Pick(r, []string{"ver.tag", ".lead", "trail.", "x..y", "obj.k", "a.b"})] = jsonValue(r, 2)
+			c.Count("documents_with_dotted_top_level_name", 1)
+		}
 		docs[i] = d
 	}
 	if n > 0 {
